@@ -88,6 +88,15 @@ theorem autotuneCore_pos (w target minStep m step : ℝ) (hmin : 0 < minStep) :
   · exact h
   · exact hmin
 
+/-- an update that lands exactly on zero is floored like a negative one: zero is not a positive step size -/
+theorem update_landing_on_zero_is_floored (w target minStep m step : ℝ) (hmin : 0 < minStep)
+    (h0 : step - w * (target - m) = 0) : autotuneCore w target minStep m step = minStep := by
+  unfold autotuneCore
+  simp only [h0]
+  norm_num
+  intro h
+  linarith
+
 /-- the step after any sequence of updates: for *every* history of clamped rates and weights -/
 noncomputable def coreRun (target minStep : ℝ) : ℝ → List (ℝ × ℝ) → ℝ
   | s, [] => s
